@@ -181,11 +181,12 @@ def gen(args):
     rng = np.random.default_rng([sd, wid, 505])
     out = []
     t = 0
-    while len(out) < ncases and t < ncases * 5:
+    while len(out) < ncases and t < ncases * 5 and core.arm():
         c = case("w%d-%d" % (wid, t), rng)
         t += 1
         if c is not None:
             out.append(c)
+    core.disarm()
     return out
 
 
